@@ -135,3 +135,6 @@ Proof.
   induction l as [|a l IH]; intros H; cbn [flat_map]; [reflexivity|].
   rewrite (H a (or_introl eq_refl)), IH; [reflexivity|]. intros; apply H; now right.
 Qed.
+
+Lemma In_firstn_local {A} (l : list A) k x : In x (firstn k l) -> In x l.
+Proof. intros H. rewrite <- (firstn_skipn k l). apply in_or_app. now left. Qed.
